@@ -129,6 +129,7 @@ func cmdCheck(args []string) int {
 	verbose := fs.Bool("v", false, "verbose")
 	knownPath := fs.String("known", "", "known findings file (default <verif>/known_findings.txt)")
 	noEvidence := fs.Bool("no-evidence", false, "do not write the evidence file")
+	writeBind := fs.Bool("write-bindings", false, "record the variables of the functions under contract in <verif>/bindings/<prop>.json (run on the tree the contracts were written against)")
 	_ = fs.Parse(args)
 	t0 := time.Now()
 	if *knownPath == "" {
@@ -175,11 +176,20 @@ func cmdCheck(args []string) int {
 		mods = append(mods, modSpec{reroot(x.ModuleDir), x.Packages})
 	}
 	var reports []*FuncReport
+	recordedBind := readBindings(*verifDir, cfg.ID)
+	newBind := map[string][]bindEntry{}
 	for _, m := range mods {
 		prog, err := loadProgram(m.dir, m.pkgs, "verif")
 		if err != nil {
 			fmt.Println("TOOL-ERROR loading packages:", err)
 			return 2
+		}
+		if *writeBind {
+			prog.collectBindings(cfg.ID, newBind)
+		} else {
+			for _, n := range prog.applyRenames(cfg.ID, recordedBind) {
+				fmt.Println("NOTE", n)
+			}
 		}
 		seen := map[*Contract]bool{}
 		for _, ct := range prog.allCon {
@@ -203,6 +213,12 @@ func cmdCheck(args []string) int {
 				continue
 			}
 			reports = append(reports, prog.VerifyLemma(l))
+		}
+	}
+	if *writeBind {
+		if err := writeBindings(*verifDir, cfg.ID, newBind); err != nil {
+			fmt.Println("TOOL-ERROR", err)
+			return 2
 		}
 	}
 	sort.Slice(reports, func(i, j int) bool { return reports[i].Func < reports[j].Func })
@@ -387,6 +403,22 @@ func cmdCheck(args []string) int {
 	}
 	for _, te := range toolErrs {
 		fmt.Println("TOOL-ERROR", te)
+	}
+	// The packages load and type-check, but a contract of this property no longer binds to the code (a name it mentions is
+	// gone, a clause no longer type-checks, too few obligations are generated). Every obligation of that contract passed on
+	// the unchanged tree and can not be generated now: the property is undecided on this tree, which the interface reports
+	// as a violation without a failing input, naming the contract that lost its code.
+	if len(violations) == 0 && len(toolErrs) > 0 {
+		_ = os.MkdirAll(replayDir, 0o755)
+		fn := filepath.Join(replayDir, "contract-binds.json")
+		rep := map[string]any{
+			"property": cfg.ID, "obligation": "contract-binds", "kind": "contract-binding",
+			"why":           "the contracts of this property no longer bind to the code under /repo: obligations that were discharged on the unchanged tree can not be generated, so the property is not shown to hold",
+			"solver_output": strings.Join(toolErrs, "\n"), "replay_status": "no-model",
+		}
+		b, _ := json.MarshalIndent(rep, "", " ")
+		_ = os.WriteFile(fn, b, 0o644)
+		violations = append(violations, fmt.Sprintf("VIOLATION property=%s replay=%s no-failing-input-found", cfg.ID, fn))
 	}
 	for _, v := range violations {
 		fmt.Println(v)
